@@ -127,6 +127,8 @@ type Server struct {
 	// ClockOffset (seconds, atomic) is added to the server's clock where message ids are made: a server whose
 	// clock reads 2038 or later produces ids with the top bit set.
 	ClockOffset int64
+	// DropAccepted (atomic): that many of the next accepted connections are closed at once.
+	DropAccepted int32
 
 	mu      sync.Mutex
 	conns   []*Conn
@@ -199,6 +201,13 @@ func (s *Server) acceptLoop() {
 		}
 		if tc, ok := nc.(*net.TCPConn); ok {
 			tc.SetNoDelay(true)
+		}
+		if atomic.LoadInt32(&s.DropAccepted) > 0 {
+			// scripted: the next connections are accepted and closed at once (a server that is restarting)
+			atomic.AddInt32(&s.DropAccepted, -1)
+			s.emit("srv.conn", map[string]interface{}{"conn": 0, "what": "accepted-and-dropped"})
+			nc.Close()
+			continue
 		}
 		c := &Conn{S: s, nc: nc, ID: int(atomic.AddInt32(&s.nconn, 1))}
 		s.mu.Lock()
